@@ -25,8 +25,26 @@ def make_case(rng, cid, prec, quick):
     ncomp = 2 if prec in "cz" else 1
     rnd = c01.f32 if prec in "sc" else (lambda v: v)
     n = rng.randint(2, 30 if quick else 80)
-    kind = rng.choice(["diagdom", "diagdom", "grid", "symdom"])
-    if kind == "symdom":
+    kind = rng.choice(["diagdom", "diagdom", "grid", "symdom", "rowdom", "rowdom"])
+    if kind == "rowdom":
+        # strictly ROW diagonally dominant, rows scaled by powers of two <= 1: the diagonal stays nonzero during elimination
+        # (row dominance is inherited by the Schur complement) but is NOT the largest entry of its column and is below 1 in
+        # magnitude -- the pivot rule at threshold 0 must still take it (c16: diagonal preferred whenever it is nonzero)
+        A0 = gen.matrix(rng, "random", n); n = A0["n"]
+        ent = {}
+        for j in range(n):
+            for p in range(A0["colptr"][j], A0["colptr"][j + 1]):
+                if A0["rowind"][p] != j:
+                    ent[(A0["rowind"][p], j)] = rng.uniform(0.25, 1.0) * rng.choice([1, -1])
+        rs = [0.0] * n
+        for (i, j), v in ent.items():
+            rs[i] += abs(v)
+        sc = [2.0 ** (-rng.randint(1, 7)) for _ in range(n)]
+        for j in range(n):
+            ent[(j, j)] = (rs[j] * 1.5 + 0.5) * rng.choice([1, -1])
+        ent = {(i, j): v * sc[i] / (4.0 * n) for (i, j), v in ent.items()}
+        A = gen.from_entries(n, ent, kind)
+    elif kind == "symdom":
         A0 = gen.matrix(rng, "random", n); n = A0["n"]
         ent = {}
         for j in range(n):
@@ -124,7 +142,7 @@ def fill_tie(sdrv, c, r):
 
 def run(ctx):
     rng = ctx.rng
-    ctx.cov["rule"] = ("p?gssvx, SymmetricMode=YES, MMD(A^T+A), threshold 0, diagonally dominant matrices (unsymmetric random pattern, "
+    ctx.cov["rule"] = ("p?gssvx, SymmetricMode=YES, MMD(A^T+A), threshold 0, diagonally dominant matrices (row dominant with the diagonal below 1 and NOT the column maximum; unsymmetric random pattern, "
                        "symmetric pattern, 2-D grid), s/d/c/z, nprocs 1..8, panel/relax/maxsuper/blocking sweeps (relax<=maxsuper), "
                        "seeded perturbation; non-trivial = n>=3; distinct by matrix+parameters")
     ctx.coq_properties()
@@ -160,7 +178,7 @@ def run(ctx):
     ctx.cov["correspondence"]["colcnt_h_equal_to_elimination_model_of_AT_plus_A"] = ntie
     ctx.cov["correspondence"]["L_structure_equal_to_elimination_model_one_worker_no_relaxation"] = ntie1
     ctx.log("symmetric-mode runs ok: %d" % nok)
-    ctx.cov["partial"] += ["the diagonal stays nonzero for column diagonally dominant matrices: proved for exact arithmetic (c16_pivots_nonzero), "
+    ctx.cov["partial"] += ["the diagonal stays nonzero for column AND for row diagonally dominant matrices: proved for exact arithmetic (c16_pivots_nonzero, c16_row_dominant_pivots_nonzero), "
                            "in rounded arithmetic it is the generator's hypothesis (strongly dominant matrices)",
                            "cholnzcnt itself is not modelled: its output is compared exactly with the elimination model per run; relaxed supernodes "
                            "(relax > 1) add explicit zeros to L: the exact L-structure comparison runs on the relax = 1 cases, the slot monitor on all"]
